@@ -112,6 +112,20 @@ def run (kv : List (String × String)) : IO Res := do
   tags := (match eff.phdr with
     | some ph => if some ph == kernelPhdr then "dso.kernel-auxv" else "dso.caller-auxv"
     | none => "dso.none") :: tags
+  -- a loaded object whose name is not valid UTF-8 makes the (best-effort) linker-debug writer fail: that is C11's
+  -- business; there is then no list to compare
+  let nameOk (v : String) : Bool :=
+    match v.splitOn ":" with
+    | [_, _, maps] => (splitList maps ";").all (fun m => match m.splitOn "." with
+      | [_, _, n] => match unhex n with
+        | some nb => (String.fromUTF8? (ByteArray.mk nb.toArray)).isSome
+        | none => true
+      | _ => true)
+    | _ => true
+  let expected := match expected with
+    | some v => if nameOk v then some v else none
+    | none => none
+  if expected.isNone && (get kv "dso").isSome then tags := "dso.unlisted" :: tags
   match expected.bind parseDso with
   | some (dyn, ver, brk, ldb, wantMaps) =>
       let some dd := findStream lc.dir ST_LINUX_DSO_DEBUG | return .propfail "linker debug stream missing although the auxiliary-vector information leads to a linker list" tags
